@@ -188,22 +188,40 @@ def rule_c08_r7(ctx: Ctx) -> None:
     ctx.check(bad is None, "T._bit_length_ / T._extent_", "%d assertions" % len(zq_lines), bad or "", "pydsdl/_serializable/_serializable.py", {"text": files["Zq.1.0.dsdl"]})
 
 
+def _huge_run(ctx: Ctx) -> Tuple[Dict[str, str], Dict[str, Any], Reference]:
+    hit = getattr(ctx, "_huge_run", None)
+    if hit is None:
+        fe = front_end(ctx)
+        ref = reference_for(HUGE)
+        files = {"%s.1.0.dsdl" % n: text_of(n, s, False) for n, s in HUGE.items()}
+        # the extent of every huge type asked from another definition (a symbolic query: the maximum of the length set)
+        files["Zq.1.0.dsdl"] = "".join("@assert ns.%s.1.0._extent_ == %d\n" % (n, ref.of("ns.%s.1.0" % n).extent) for n in HUGE) + "uint8 a\n@assert _offset_ == {8}\n@sealed\n"
+        out = fe.read_many([job_for(files)])[0]
+        ctx.count(len(HUGE))
+        hit = (files, out, ref)
+        ctx._huge_run = hit  # type: ignore
+    return hit
+
+
 def rule_c16_r8(ctx: Ctx) -> None:
-    ctx.rule("C16.R8", "definitions with capacities up to 2**63 - 1, nested variable-length composites and extents up to 2**62, read end to end by the evaluated front end: no collection whose size follows a capacity or an extent is walked (the checker's evaluator refuses to walk more than 100000 elements / to run more than its step limit and reports it), and bounds, extent and alignment are the Specification's", min_instances=len(HUGE))
-    fe = front_end(ctx)
-    ref = reference_for(HUGE)
-    files = {"%s.1.0.dsdl" % n: text_of(n, s, False) for n, s in HUGE.items()}
-    # the extent of every huge type asked from another definition (a symbolic query: the maximum of the length set)
-    files["Zq.1.0.dsdl"] = "".join("@assert ns.%s.1.0._extent_ == %d\n" % (n, ref.of("ns.%s.1.0" % n).extent) for n in HUGE) + "uint8 a\n@assert _offset_ == {8}\n@sealed\n"
-    # byte alignment of every field offset is asked where it can be asked symbolically: through an assertion on the residue
-    out = fe.read_many([job_for(files)])[0]
-    ctx.count(len(HUGE))
+    ctx.rule("C16.R8", "definitions with capacities up to 2**63 - 1, nested variable-length composites and extents up to 2**62, read end to end by the evaluated front end (and every type asked for its extent from another definition): no collection whose size follows a capacity or an extent is walked - the checker's evaluator refuses to walk more than 100000 elements / to run more than its step limit, and reports it", min_instances=1)
+    files, out, ref = _huge_run(ctx)
+    where = "pydsdl/_bit_length_set/_symbolic.py"
+    ctx.check(not out.get("too_large"), "read_namespace over types with huge capacities", "%d definitions, capacities up to 2**63" % len(HUGE), "reading walks a collection that grows with a capacity or an extent: %s" % out.get("too_large"), where, files if out.get("too_large") else None)
+    if not out.get("too_large") and out["raised"] is not None:
+        # rejected for another reason (what the layouts *are* is C02.R10's business): the cost clause is decided as far as
+        # the reading got
+        ctx.analysed["C16.R8.note"] = "the corpus was rejected (%s at %s:%s) before all of it was read" % (out["raised"], out["path"], out["line"])
+
+
+def rule_c02_r10(ctx: Ctx) -> None:
+    ctx.rule("C02.R10", "the types of C16.R8's corpus (capacities up to 2**63 - 1, lengths beyond 2**53 and 2**64): bounds of the serialized length, extent and alignment are the Specification's, computed exactly", min_instances=len(HUGE))
+    files, out, ref = _huge_run(ctx)
     where = "pydsdl/_bit_length_set/_symbolic.py"
     if out.get("too_large"):
-        ctx.fail("read_namespace over types with huge capacities", "read symbolically", "reading walks a collection that grows with a capacity or an extent: %s" % out["too_large"], where=where, detail=files)
-        return
+        raise AnalysisError("the huge types cannot be read symbolically (%s): decided by C16.R8" % out["too_large"])
     if out["raised"] is not None:
-        ctx.fail("read_namespace over types with huge capacities", "accepted", "valid definitions are rejected: %s at %s:%s" % (out["raised"], out["path"], out["line"]), where=where)
+        ctx.fail("read_namespace over types with huge capacities", "accepted", "valid definitions (whose assertions hold by the reference) are rejected: %s at %s:%s" % (out["raised"], out["path"], out["line"]), where=where, detail=files)
         return
     if out.get("digest_error"):
         raise AnalysisError("the models of the huge types cannot be described: %s" % out["digest_error"])
